@@ -1,6 +1,6 @@
 --------------------------- MODULE MC_Forwarding ---------------------------
 (* Exhaustive model of Forwarding: one frame of every (emitter, dst, ttl)  *)
-(* on four small internetworks (8-bit addresses; LANs are /4, the          *)
+(* on six small internetworks (8-bit addresses; LANs are /4, the          *)
 (* router-router link a /6 with two usable addresses):                     *)
 (*   T1  a - r - [sw] - b                                                  *)
 (*   T2  a - r1 = r2 - b   static routes both ways, a longer-prefix route   *)
@@ -10,6 +10,11 @@
 (*       128/2 and default routes): a routing LOOP for addresses that      *)
 (*       exist nowhere - the ttl exercise                                  *)
 (*   T4  a, c - [sw] - r - b   host a uses host c as its default gateway   *)
+(*   T5  a - r1, r2 - b, r3: a TRIANGLE of routers; r1 has two routes to   *)
+(*       b's LAN (direct, metric 0; via r3, metric 1); 128/2 is routed     *)
+(*       round the triangle r1 -> r2 -> r3 -> r1 for ever                  *)
+(*   T6  a - r1 = r2 - b   like T2, but the subnet the two routers share   *)
+(*       is a /4 with free addresses (78 is on it and owned by nobody)     *)
 (* The design lowers the ttl by one at every receiving interface / switch  *)
 (* port and at every routing decision.  harness/c08.py reads the           *)
 (* topologies and the frames from this model's behaviours, builds the real *)
@@ -36,12 +41,20 @@ T3 == << H("a", 18, 4, 17), H("b", 34, 4, 33),
 T4 == << H("a", 18, 4, 19), H("c", 19, 4, 17), H("b", 34, 4, 33),
          R("r", <<If(17, 4), If(33, 4)>>, <<>>, NoHop),
          S("sw", 16, 4) >>
-Topos == {T1, T2, T3, T4}
+T5 == << H("a", 18, 4, 17), H("b", 34, 4, 33),
+         R("r1", <<If(17, 4), If(65, 6), If(73, 6)>>, <<Rt(32, 4, 74, 1), Rt(32, 4, 66, 0), Rt(128, 2, 66, 0)>>, NoHop),
+         R("r2", <<If(33, 4), If(66, 6), If(69, 6)>>, <<Rt(16, 4, 65, 0), Rt(128, 2, 70, 0)>>, NoHop),
+         R("r3", <<If(70, 6), If(74, 6)>>, <<Rt(128, 2, 73, 0), Rt(16, 4, 73, 0), Rt(32, 4, 69, 0)>>, NoHop) >>
+T6 == << H("a", 18, 4, 17), H("b", 34, 4, 33),
+         R("r1", <<If(17, 4), If(65, 4)>>, <<Rt(32, 4, 66, 0)>>, NoHop),
+         R("r2", <<If(33, 4), If(66, 4)>>, <<Rt(16, 4, 65, 0)>>, NoHop) >>
+Topos == {T1, T2, T3, T4, T5, T6}
 
-\* every owned address, an unowned address on each LAN, two addresses that exist nowhere
-\* (133: inside the static 128/2 routes of T3; 200: only default routes apply)
+\* every owned address, an unowned address on each LAN and on the router-router subnet of T6 (78),
+\* two addresses that exist nowhere (133: inside the static 128/2 routes of T3/T5; 200: only default
+\* routes apply)
 Owned(t) == UNION {{t[n].ifs[i].addr : i \in 1..Len(t[n].ifs)} : n \in {m \in 1..Len(t) : t[m].kind # "switch"}}
-Dsts == Owned(topo) \cup {30, 45, 133, 200}
+Dsts == Owned(topo) \cup {30, 45, 78, 133, 200}
 
 Init == \E t \in Topos : FwdInit(t)
 
